@@ -15,6 +15,8 @@
 package scanner
 
 import (
+	"bytes"
+
 	proto "github.com/kubewharf/kubebrain-client/api/v2rpc"
 )
 
@@ -107,6 +109,9 @@ type streamResultReceiver struct {
 	readRev uint64
 	stream  chan *proto.StreamRangeResponse
 	batch   []*proto.KeyValue
+	// lastSent is the last key already handed to the stream; batches can not be taken back, so a scan that is
+	// retried after an error must not send the keys up to it again
+	lastSent []byte
 }
 
 func newStreamReceiver(readRev uint64, stream chan *proto.StreamRangeResponse) *streamResultReceiver {
@@ -117,6 +122,10 @@ func newStreamReceiver(readRev uint64, stream chan *proto.StreamRangeResponse) *
 }
 
 func (e *streamResultReceiver) append(key, value []byte, revision uint64) {
+	if e.lastSent != nil && bytes.Compare(key, e.lastSent) <= 0 {
+		// already sent before the scan was retried (a worker scans in ascending key order)
+		return
+	}
 	e.batch = append(e.batch, &proto.KeyValue{
 		Key:      key,
 		Value:    value,
@@ -125,6 +134,7 @@ func (e *streamResultReceiver) append(key, value []byte, revision uint64) {
 	if len(e.batch) >= rangeStreamBatch {
 		// todo: use object pool
 		batch := e.batch
+		e.lastSent = batch[len(batch)-1].Key
 		e.batch = make([]*proto.KeyValue, 0, rangeStreamBatch)
 		resp := &proto.StreamRangeResponse{
 			RangeResponse: &proto.RangeResponse{
@@ -146,6 +156,7 @@ func (e *streamResultReceiver) flush() {
 				More:   true,
 			},
 		}
+		e.lastSent = e.batch[len(e.batch)-1].Key
 		e.stream <- resp
 		e.reset()
 	}
